@@ -38,6 +38,9 @@ type C20Case struct {
 	Nested int `json:"nested,omitempty"`
 	// SameErr: every failing item fails with the same message (several sub-requests rejected for one reason)
 	SameErr bool `json:"same_err,omitempty"`
+	// SharedErrs: the error of item i is the one-element sub-slice all[i:i+1] of one error list (the errors of one
+	// downstream batch answer, handed to the sub-requests they belong to)
+	SharedErrs bool `json:"shared_errs,omitempty"`
 }
 
 func c20ErrMsg(c *C20Case, i int) string {
@@ -108,6 +111,10 @@ func checkC20(c *C20Case) *ev.Failure {
 		items[i] = i
 	}
 	var reducedCount int32
+	sharedErrs := make(gqlerrors.ErrorList, n)
+	for i := range sharedErrs {
+		sharedErrs[i] = gqlerrors.NewError("DOWNSTREAM", errors.New(c20ErrMsg(c, i)))
+	}
 	go func() {
 		acc, errs := common.AsyncMapReduce(items, []int{}, func(i int) (int, error) {
 			atomic.AddInt32(&mapInflight, 1)
@@ -125,6 +132,9 @@ func checkC20(c *C20Case) *ev.Failure {
 				yieldN(c.MapYield[i])
 			}
 			if c.Err[i] {
+				if c.SharedErrs {
+					return 0, sharedErrs[i : i+1]
+				}
 				if c.SameErr && i%2 == 0 {
 					return 0, gqlerrors.NewError("FORBIDDEN", errors.New(c20ErrMsg(c, i)))
 				}
@@ -291,6 +301,7 @@ func genC20(t *rapid.T) *C20Case {
 	}
 	c := &C20Case{N: n, Err: make([]bool, n), ReduceYield: make([]int, n), MapYield: make([]int, n), HookYield: map[string]int{}}
 	c.SameErr = rapid.IntRange(0, 3).Draw(t, "sameerr") == 0
+	c.SharedErrs = rapid.IntRange(0, 3).Draw(t, "sharederrs") == 0
 	for i := 0; i < n; i++ {
 		c.Err[i] = rapid.IntRange(0, 2).Draw(t, "err") == 0
 		c.ReduceYield[i] = rapid.IntRange(0, 3).Draw(t, "ry")
